@@ -536,6 +536,26 @@ def gather_writers(base_dir, st: Stats):
         wins = [i for i, r in enumerate(rs) if r.get("status") == "success"]
         if len(wins) != 1:
             fails.append(("C17:unlisted:gather-writers-not-exactly-one-winner", f"{n} overlapping octave_write coroutines with one base_hash: winners {wins}", {"kind": "gather", "n": n}))
+        # changes-mode requests in flight together, each with the hash of the file it read (current at the time it is
+        # created): every request that reports success must find its key in the final file, or it was overwritten by a
+        # writer that held the same hash
+        with open(p, "wb") as fh:
+            fh.write(TEXTS["A"].encode())
+
+        async def go2():
+            tool = WriteTool()
+            return await asyncio.gather(*[tool.execute(target_path=p, changes={f"ADDED{i}": i}, base_hash=bh) for i in range(n)])
+
+        rs2 = asyncio.run(go2())
+        final = open(p, "rb").read().decode("utf-8", "replace")
+        st.evaluations += 1
+        st.nontrivial_exact += 1
+        st.labels["gather_runs"] += 1
+        lost = [i for i, r in enumerate(rs2) if r.get("status") == "success" and f"ADDED{i}::" not in final]
+        wins2 = [i for i, r in enumerate(rs2) if r.get("status") == "success"]
+        if lost or len(wins2) > 1:
+            fails.append(("C17:unlisted:gather-changes-lost-update", f"{n} overlapping changes requests with one base_hash: winners {wins2}, successful requests whose key is "
+                          f"missing from the final file: {lost} | final={final!r}", {"kind": "gather", "n": n}))
     return fails
 
 
